@@ -453,7 +453,7 @@ func (c *checker) check(g ctx, alias string, A *Ty, t *Term) *rej {
 				return no("type-mismatch", "recv on self at type %s", U.K)
 			}
 			if selfish("", t.Y) {
-				return unk("payload-binder-is-self", "recv on self")
+				return no("shadow", "recv on self binds its payload to self: the received channel is lost")
 			}
 			y, z := Base(t.Y), Base(t.Z)
 			if selfish("", t.Z) {
